@@ -303,11 +303,11 @@ def run(ctx: Ctx) -> None:
     cases = [json.loads(line) for line in open(out)]
     if len(cases) != res.distinct:
         raise MachineryError(f"exported {len(cases)} cases but TLC checked {res.distinct} states")
-    types = ALL_TYPES + ["longstring"]
+    types = ALL_TYPES + ["longstring", "verylongstring"]
     n, drift = _direct(ctx, cases, types)
     ctx.cov["direct_decisions"] = n
     ctx.cov["model_drift_notes"] = drift
-    e2e_types = ["double", "float", "long", "string", "longstring", "date"] if quick else ALL_TYPES + ["longstring"]
+    e2e_types = ["double", "float", "long", "string", "longstring", "verylongstring", "date"] if quick else ALL_TYPES + ["longstring", "verylongstring"]
     n2 = _e2e(ctx, cases, e2e_types, max_filters=25 if quick else 10 ** 6, seed=ctx.seed)
     ctx.cov["e2e_scans_compared"] = n2
     ctx.count_traces(n + n2)
